@@ -71,7 +71,7 @@ Definition only_wrong_secrets (p : pres) : bool :=
 Lemma only_wrong_secrets_presents_nothing : forall p,
   only_wrong_secrets p = true -> presents_right_secret p = false /\ presents_ok_assertion p = false.
 Proof.
-  intros p H; destruct p as [| |[] ?| |[]|[]|[]| | | |[] []|?|?|?|?|?|[] []]; try discriminate H; split; reflexivity.
+  intros p H; destruct p as [| |[] ?| |[]|[]|[]| | | |[] []|?|?|?|?|?|[] []|?]; try discriminate H; split; reflexivity.
 Qed.
 
 (* a near miss of X's id is nobody's id: with X's exact secret, any other secret or none, in the
@@ -151,7 +151,7 @@ Qed.
    dropped in favour of the secret check *)
 Definition carries_assertion (p : pres) : bool :=
   match p with
-  | PAssert _ | PAssertId _ | PAssertNoType | PAssertWrongType | PXAssert _ | PNearId IdAssert _ => true
+  | PAssert _ | PAssertId _ | PAssertNoType | PAssertWrongType | PXAssert _ | PNearId IdAssert _ | PXSub _ => true
   | _ => false
   end.
 Lemma bare_provider_assertion_refused : forall e c rg p g pl pv,
@@ -159,17 +159,17 @@ Lemma bare_provider_assertion_refused : forall e c rg p g pl pv,
   success (model (mkInput RLegacy e c rg p g pl pv)) = false.
 Proof.
   intros e c rg p g pl pv Hc Hp He.
-  destruct c as [fpost fpk fref ccc cte cdev cjp]; cbn in Hc; subst cjp.
+  destruct c as [fpost fpk fref ccc cte cdev cjp csub]; cbn in Hc; subst cjp.
   destruct pl as [gp cp ap]; destruct rg as [known meth app gs key].
   unfold model; cbn [i_endpoint i_cfg i_reg i_pres i_grant i_router i_pl i_prev].
-  destruct p as [| |? ?| |?|?|?| | | |? ?|?|?|?|?|?|[] ?]; try discriminate Hp; clear Hp.
+  destruct p as [| |? ?| |?|?|?| | | |? ?|?|?|?|?|?|[] ?|?]; try discriminate Hp; clear Hp.
   all: destruct He as [->| ->]; [|destruct g]; cbn; split_goal.
 Qed.
 
 Example round6_nonvacuous :
   let oth := mkReg true MOther AWeb all_grants false in
   let pub := mkReg true MNone ANative all_grants false in
-  let bare := mkCfg true true true true true true false in
+  let bare := mkCfg true true true true true true false false in
   (* seeded regression C05-K: bare client_id, method outside the constants, device_code grant *)
   model (mkInput RProvider EToken all_on oth PIdOnly GDevice std_pl NoPrev) = ORes S4 EInvalidClient false false WNone
   /\ success (model (mkInput RProvider EToken all_on oth (PBasic SRight false) GDevice std_pl NoPrev)) = true
@@ -177,4 +177,36 @@ Example round6_nonvacuous :
   /\ model (mkInput RLegacy EIntrospect bare pub (PAssertId AJunk) GMissing std_pl NoPrev) = ORes S4 EInvalidClient false false WNone
   /\ model (mkInput RLegacy EToken bare (mkReg true MPKJWT AWeb all_grants true) (PAssert AOk) GCode std_pl NoPrev) = ORes S4 EInvalidClient false false WNone
   /\ success (model (mkInput RLegacy EToken all_on (mkReg true MPKJWT AWeb all_grants true) (PAssert AOk) GCode std_pl NoPrev)) = true.
+Proof. vm_compute. repeat split; reflexivity. Qed.
+
+(* ---------------- round 7: JWT profile verifier options (custom SubjectCheck) *)
+(* a client assertion issued and signed by X whose subject is another registered client Y: whatever
+   SubjectCheck the JWT profile verifier was built with, the answer never acts for Y - the client
+   that authenticates is the one whose key signed - ... *)
+Lemma subject_never_acted_for : forall r e c rg v g pl pv s ec tok act w,
+  model (mkInput r e c rg (PXSub v) g pl pv) = ORes s ec tok act w -> w <> WOther.
+Proof.
+  intros r e c rg v g pl pv s ec tok act w Hm.
+  pose proof (self_never_other (mkInput r e c rg (PXSub v) g pl pv) eq_refl) as H.
+  rewrite Hm in H. intros ->. exact H.
+Qed.
+
+(* ... and with the default check (SubjectIsIssuer) such an assertion authenticates nobody *)
+Lemma subject_default_refused : forall r e c rg v g pl pv,
+  c_sub c = false -> (e = EToken -> g <> GBearer) ->
+  success (model (mkInput r e c rg (PXSub v) g pl pv)) = false.
+Proof.
+  intros r e c rg v g pl pv Hc Hg.
+  destruct c as [fpost fpk fref ccc cte cdev cjp csub]; cbn in Hc; subst csub.
+  destruct pl as [gp cp ap]; destruct rg as [known meth app gs key].
+  unfold model; cbn [i_endpoint i_cfg i_reg i_pres i_grant i_router i_pl i_prev].
+  destruct e; [destruct g; try (exfalso; now apply Hg)| | |]; destruct r, meth; cbn; split_goal.
+Qed.
+
+Example subject_nonvacuous :
+  let x := mkReg true MPKJWT AWeb all_grants true in
+  let sub := mkCfg true true true true true true true true in
+  model (mkInput RProvider EToken sub x (PXSub (mkV MPKJWT true)) GCode std_pl NoPrev) = ORes S4 EInvalidGrant false false WNone
+  /\ model (mkInput RLegacy ERevoke sub x (PXSub (mkV MPKJWT true)) GMissing std_pl NoPrev) = ORes S4 EInvalidClient false false WNone
+  /\ model (mkInput RProvider EToken sub x (PXSub (mkV MPKJWT true)) GCC std_pl NoPrev) = ORes S4 EInvalidClient false false WNone.
 Proof. vm_compute. repeat split; reflexivity. Qed.
